@@ -137,6 +137,8 @@ MUTATIONS = [
     ("0008", r" I|RP", r"^(..)(..)$", lambda m: [m.group(1) + v for v in ("C8", "FF", "EF")]),
     ("3EF0", r" I|RP", r"^(..)(..)(.*)$", lambda m: [m.group(1) + v + m.group(3) for v in ("C8", "FF", "EF")]),
     ("000C", r"RP", r"^(......)(......)(.*)$", lambda m: [m.group(1) + "FFFFFF" + m.group(3), m.group(1)[:4] + "7F" + "FFFFFF" + m.group(3)]),
+    # the device named is of the older radiator-valve type 00: / a digital thermostat 22: / a HCW82 03: (same serial number)
+    ("000C", r"RP", r"^(......)(..)(....)(.*)$", lambda m: [m.group(1) + t + m.group(3) + m.group(4) for t in ("00", "58", "0C")]),
     ("0418", r" I|RP", r"^(.{18})(.{12})(.*)$", lambda m: ["000000B0000000000000000000007FFFFF7000000000"]),
     ("313F", r" I|RP", r"^(.{6})(..)(..)(....)$", lambda m: [m.group(1) + "1D0207E8"]),
     ("10A0", r" I|RP", r"^(..)(....)(.*)$", lambda m: [m.group(1) + v + m.group(3) for v in ("7FFF", "0000")]),
